@@ -196,7 +196,9 @@ class SetTyping:
             q = self._callee(e)
             if q is not None and _ret_set_positions(q.node)[0]:
                 # a function whose every return is `set()` or a one-element display yields an order-trivial set
-                rets = [r.value for r in returns_of(q.node) if r.value is not None]
+                def arms(x):
+                    return arms(x.body) + arms(x.orelse) if isinstance(x, ast.IfExp) else [x]
+                rets = [a for r in returns_of(q.node) if r.value is not None for a in arms(r.value)]
                 trivial = rets and all((isinstance(r, ast.Call) and dotted(r.func) == "set" and not r.args) or (isinstance(r, ast.Set) and len(r.elts) <= 1) for r in rets)
                 return not trivial
             return False
@@ -346,7 +348,7 @@ def _classify_site(P: Project, f: FunctionInfo, ty: SetTyping, it: ast.AST, node
                 return None
         return "flows into an ordered sequence"
     if kind == "for":
-        body = node.body
+        body = [s_ for s_ in node.body if not (isinstance(s_, ast.If) and not s_.orelse and len(s_.body) == 1 and isinstance(s_.body[0], ast.Continue))]
         for st in body:
             ok = False
             if isinstance(st, ast.Expr) and isinstance(st.value, ast.Call) and isinstance(st.value.func, ast.Attribute) and st.value.func.attr in COMMUTATIVE_METHODS:
@@ -354,6 +356,9 @@ def _classify_site(P: Project, f: FunctionInfo, ty: SetTyping, it: ast.AST, node
             if isinstance(st, ast.Expr) and isinstance(st.value, ast.Call) and dotted(st.value.func) == "setattr":
                 ok = True
             loopvar = norm(node.target)
+            if isinstance(st, ast.Expr) and isinstance(st.value, ast.Call) and isinstance(st.value.func, ast.Attribute) and st.value.func.attr in ("pop", "discard", "remove") \
+                    and st.value.args and norm(st.value.args[0]) == loopvar:
+                ok = True  # keyed removal by the loop variable (after a skip-guard): commutative
             if isinstance(st, ast.If) and all(
                     isinstance(s, ast.Expr) and isinstance(s.value, ast.Call) and isinstance(s.value.func, ast.Attribute) and s.value.func.attr in ("pop", "discard", "remove")
                     and s.value.args and norm(s.value.args[0]) == loopvar for s in st.body) and not st.orelse:
@@ -373,7 +378,10 @@ def _classify_site(P: Project, f: FunctionInfo, ty: SetTyping, it: ast.AST, node
         # dominated by a guard that rejects the set unless it has exactly one element
         name = norm(it)
         fn = f.node
-        from ..util import truth_table
+        from ..util import truth_table, guards_of
+        # the element is taken inside a branch that is only entered when the set has exactly one element
+        if (f"len({name}) == 1", True) in guards_of(P, node):
+            return None
         for g in walk_no_nested(fn):
             if not (isinstance(g, ast.If) and g.lineno <= node.lineno and any(isinstance(s, (ast.Raise, ast.Continue, ast.Return)) for s in g.body)):
                 continue
